@@ -51,7 +51,12 @@ type Case struct {
 	Sel  int                 `json:"sel,omitempty"`  // fuzz: index into fuzzTargets
 	Data []byte              `json:"data,omitempty"` // fuzz: the input bytes (without the selector byte)
 	Rot  int                 `json:"rot,omitempty"`
-	Rev  bool                `json:"rev,omitempty"`
+	// readers / unmarshal, compact protocol: BOOL announced as 1 instead of 2 as
+	// element type of lists and sets (Bool1) and as key / value type of maps (MapBool1)
+	Extra    *thriftspec.Field `json:"extra,omitempty"` // unmarshal: a field the type does not declare, put first on the wire (a conformant reader skips it)
+	Bool1    bool              `json:"bool1,omitempty"`
+	MapBool1 bool              `json:"map_bool1,omitempty"`
+	Rev      bool              `json:"rev,omitempty"`
 }
 
 // One class per clause of the specification the library was found to deviate
@@ -63,6 +68,11 @@ type clause struct {
 }
 
 const classEnumHeader = "thrift-enum-field-header-type"
+
+// classMapBool1: Unmarshal mis-decodes a declared map whose BOOL key / value type
+// is announced as 1 in the compact protocol (lists, sets and the Reader methods
+// accept 1 and 2). While listed, such encodings are not fed to Unmarshal.
+const classMapBool1 = "thrift-compact-map-bool-type-1"
 
 var clauses = []clause{
 	{"thrift-binary-type-ids", func(d *thriftspec.Dialect, on bool) { d.LibBinaryTypeIDs = on }},
@@ -281,7 +291,8 @@ func checkCase(c Case, D thriftspec.Dialect) result {
 		if c.Msg != nil && p != thriftspec.Compact && (c.HdrP == 0 || c.HdrP == 1) {
 			hp = thriftspec.Proto(c.HdrP)
 		}
-		enc := func(d thriftspec.Dialect) []byte { return encodeAll(p, hp, d, c.Msg, c.Tree, c.Long) }
+		wire := thriftspec.WithBool1(*c.Tree, c.Bool1, c.MapBool1)
+		enc := func(d thriftspec.Dialect) []byte { return encodeAll(p, hp, d, c.Msg, &wire, c.Long) }
 		return feed(enc, D, func(b []byte) *evid.Failure {
 			br := bytes.NewReader(b)
 			tr := &tgen.TreeReader{R: proto(c.P).NewReader(br), Remaining: br.Len}
@@ -315,6 +326,10 @@ func checkCase(c Case, D thriftspec.Dialect) result {
 		if r := guard("build", func() result {
 			v = tgen.Build(c.T, c.V)
 			tree = reorder(tgen.ToTree(c.T, v), c.Rot, c.Rev)
+			if c.Extra != nil {
+				tree.Fields = append([]thriftspec.Field{*c.Extra}, tree.Fields...)
+			}
+			tree = thriftspec.WithBool1(tree, c.Bool1, c.MapBool1)
 			return result{}
 		}); r.fail != nil {
 			return r
@@ -449,6 +464,8 @@ func genCase(t *rapid.T, o *tgen.Opts) Case {
 				tree = reorder(tree, rapid.IntRange(0, 5).Draw(t, "rot"), rapid.Bool().Draw(t, "rev"))
 			}
 			c.HdrP = rapid.IntRange(0, 1).Draw(t, "hdrp")
+			c.Bool1 = rapid.Bool().Draw(t, "bool1")
+			c.MapBool1 = rapid.Bool().Draw(t, "mapbool1")
 		}
 		c.Tree = &tree
 	case "marshal", "unmarshal":
@@ -459,6 +476,23 @@ func genCase(t *rapid.T, o *tgen.Opts) Case {
 			c.Long = rapid.SliceOfN(rapid.Bool(), 0, 24).Draw(t, "long")
 			c.Rot = rapid.IntRange(0, 5).Draw(t, "rot")
 			c.Rev = rapid.Bool().Draw(t, "rev")
+			c.Bool1 = rapid.Bool().Draw(t, "bool1")
+			c.MapBool1 = rapid.Bool().Draw(t, "mapbool1")
+			if rapid.IntRange(0, 2).Draw(t, "extra") == 1 {
+				id := int16(rapid.IntRange(20000, 32000).Draw(t, "extraid"))
+				declared := false
+				for _, ff := range tgen.Flatten(c.T) {
+					declared = declared || ff.F.ID == id
+				}
+				if !declared {
+					budget := rapid.SampledFrom([]int{2, 8, 20}).Draw(t, "xbudget")
+					c.Extra = &thriftspec.Field{ID: id, V: tgen.GenTree(t, tgen.GenTreeType(t, 2), 2, &budget)}
+				}
+			}
+			if c.MapBool1 && o.NoMapBool1 && c.P%3 == 2 && thriftspec.HasBoolMap(tgen.ToTree(c.T, tgen.Build(c.T, c.V))) {
+				c.MapBool1 = false // avoided by construction while the class is listed
+				o.Avoided["map-bool-type-1"]++
+			}
 		}
 	}
 	return c
@@ -593,6 +627,19 @@ func account(c Case) {
 		if !asc {
 			evid.Label("alt.non-ascending-field-order")
 		}
+		if c.Extra != nil {
+			evid.Label("alt.undeclared-field-on-the-wire")
+			tree.Fields = append([]thriftspec.Field{*c.Extra}, tree.Fields...)
+		}
+		if p == thriftspec.Compact {
+			w := thriftspec.WithBool1(tree, c.Bool1, c.MapBool1)
+			if thriftspec.HasBool1(w, true, false) {
+				evid.Label("alt.bool-element-type-1.list/set." + c.Kind)
+			}
+			if thriftspec.HasBool1(w, false, true) {
+				evid.Label("alt.bool-type-1.map." + c.Kind)
+			}
+		}
 	}
 	if st.Containers >= 1 || st.Fields >= 3 || len(c.Seq) >= 3 {
 		b, _ := json.Marshal(c)
@@ -604,13 +651,16 @@ func account(c Case) {
 
 func TestSpec(t *testing.T) {
 	D := activeDialect()
-	o := &tgen.Opts{EnumI32Only: evid.KnownActive(classEnumHeader)}
+	o := &tgen.Opts{EnumI32Only: evid.KnownActive(classEnumHeader), NoMapBool1: evid.KnownActive(classMapBool1), Avoided: map[string]int{}}
 	if evid.Thorough() {
 		o.MaxDepth = 4
 	}
 	evid.Check(t, "Spec", 50000, func(rt *rapid.T) {
-		before := o.Avoided["enum-on-non-int32"]
+		before, beforeMap := o.Avoided["enum-on-non-int32"], o.Avoided["map-bool-type-1"]
 		c := genCase(rt, o)
+		for i := beforeMap; i < o.Avoided["map-bool-type-1"]; i++ {
+			evid.Excluded(classMapBool1)
+		}
 		for i := before; i < o.Avoided["enum-on-non-int32"]; i++ {
 			evid.Excluded(classEnumHeader)
 		}
@@ -672,6 +722,10 @@ var witnessCases = map[string]Case{
 	"thrift-message-types-from-zero":     {Kind: "writer", P: 1, Msg: &thriftspec.Message{Type: thriftspec.Call, Name: "ping", SeqID: 1}, Tree: &thriftspec.Value{T: thriftspec.I32, I: 0}},
 	"thrift-compact-message-header-byte": {Kind: "writer", P: 2, Msg: &thriftspec.Message{Type: thriftspec.Reply, Name: "ping", SeqID: 1}, Tree: &thriftspec.Value{T: thriftspec.Struct}},
 	"thrift-compact-double-big-endian":   {Kind: "writer", P: 2, Tree: &thriftspec.Value{T: thriftspec.Double, F: 0x3ff0000000000000}},
+	// struct{M map[bool]int32 `thrift:"1"`; Z int32 `thrift:"2"`}{M: {true: 7}, Z: 5} as 1b 01 15 01 0e 25 0a 00
+	classMapBool1: {Kind: "unmarshal", P: 2, MapBool1: true, T: &tgen.TypeDesc{K: tgen.KStruct, Fields: []tgen.FieldDesc{
+		{ID: 1, T: tgen.TypeDesc{K: tgen.KMap, Key: &tgen.TypeDesc{K: tgen.KBool}, Elem: &tgen.TypeDesc{K: tgen.KI32}}}, {ID: 2, T: tgen.TypeDesc{K: tgen.KI32}}}},
+		V: &tgen.Recipe{E: []tgen.Recipe{{K: []tgen.Recipe{{I: 1}}, E: []tgen.Recipe{{I: 7}}}, {I: 5}}}},
 	classEnumHeader: {Kind: "marshal", P: 0, T: &tgen.TypeDesc{K: tgen.KStruct, Fields: []tgen.FieldDesc{{ID: 1, Enum: true, T: tgen.TypeDesc{K: tgen.KI8}}}},
 		V: &tgen.Recipe{E: []tgen.Recipe{{I: 1}}}},
 }
